@@ -429,4 +429,21 @@ theorem angles_mod_turn (x y h al : ℝ) (k : ℤ) :
   unfold hueFrom
   simp only [real_isFinite, if_true]
 
+/-- **`turn` and `grad` angles, as the parser converts them since 949bf79** (exact arithmetic): the
+degrees it hands to the constructors are the angle's degrees up to whole turns — `x turn` becomes
+`360·x + 360·k` and `x grad` becomes `0.9·x + 360·k` for an integer `k` — so, with
+`angles_mod_turn`, every `turn` / `grad` spelling of an angle denotes the colour of that angle. -/
+theorem unit_angles_reduced (x : ℝ) :
+    (∃ k : ℤ, Sc.fmod x (1.0 : ℝ) * 360.0 = 360 * x + 360 * k) ∧
+    (∃ k : ℤ, Sc.fmod x (400.0 : ℝ) * 360.0 / 400.0 = 9 / 10 * x + 360 * k) := by
+  constructor
+  · refine ⟨-rtrunc (x / 1), ?_⟩
+    show (x - (1.0 : ℝ) * ((rtrunc (x / (1.0 : ℝ)) : ℤ) : ℝ)) * 360.0 = _
+    norm_num
+    ring
+  · refine ⟨-rtrunc (x / 400), ?_⟩
+    show (x - (400.0 : ℝ) * ((rtrunc (x / (400.0 : ℝ)) : ℤ) : ℝ)) * 360.0 / 400.0 = _
+    norm_num
+    ring
+
 end Pastel.C01
